@@ -1,6 +1,6 @@
 #!/bin/bash
 # usage: recheck_seed.sh <PROP-k> [checks...]   re-run the checks against an already confirmed seeded change
-S=$1; shift; P=${S%-*}; CHECKS=${*:-$P}
+S=$1; shift; P=${S:0:3}; CHECKS=${*:-$P}
 cd /repo && git apply /verif/seeded/$S/patch.diff || exit 2
 RES=""
 for c in $CHECKS; do o=$(cd /verif && ./check $c 2>&1 | grep -E "VIOLATION|quick:" | tail -1); RES="$RES$c: $o|"; done
